@@ -31,7 +31,7 @@ from .cache_data import cache_enter_count, cache_search_count, cache_match_count
     IndexedCache, get_cache_keys_for_class_, yield_class_values_from_cache
 from .failures import MultipleSolutionFound, NoSolutionFound
 from .utils import IDGenerator, is_iterable, render_tree, generate_combinations, lazy_iterate_dicts
-from .hashed_data import HashedValue, HashedIterable, T
+from .hashed_data import HashedValue, HashedIterable, T, NonSolution
 
 if TYPE_CHECKING:
     from .conclusion import Conclusion
@@ -552,8 +552,8 @@ class An(ResultQuantifier[T]):
         if self._id_ in sources:
             if self is self._conditions_root_ or isinstance(self._parent_, LogicalOperator):
                 original_me = self._id_expression_map_[self._id_]
-                self._is_false_ = original_me._is_false_
-                if not original_me._is_false_ or yield_when_false:
+                self._is_false_ = original_me._is_false_ or isinstance(sources[self._id_], NonSolution)
+                if not self._is_false_ or yield_when_false:
                     yield sources
             else:
                 yield sources
@@ -570,6 +570,34 @@ class An(ResultQuantifier[T]):
                     if self._var_:
                         value.update({self._id_: value[self._var_._id_]})
                     yield value
+
+
+def _sub_query_of_(expression: SymbolicExpression) -> Optional[An]:
+    """
+    The sub-query that an expression takes its values from, directly or through attribute, index or call mappings.
+    """
+    while isinstance(expression, DomainMapping) and not isinstance(expression, Flatten):
+        expression = expression._child_
+    return expression if isinstance(expression, An) else None
+
+
+def _is_not_a_solution_(sub_query: Optional[An], sources: Dict[int, HashedValue]) -> bool:
+    """
+    Whether the binding that was just produced for an expression over a sub-query (evaluated under the given sources with
+    false rows asked for) is a value that is not a solution of the sub-query. A sub-query that was bound already is what
+    it was bound to: a value like any other, unless an earlier comparison marked it as a non-solution.
+    """
+    if sub_query is None:
+        return False
+    if sub_query._id_ in sources:
+        return isinstance(sources[sub_query._id_], NonSolution)
+    return sub_query._is_false_
+
+
+def _mark_as_non_solution_(sub_query: An, values: Dict[int, HashedValue]) -> None:
+    bound = values.get(sub_query._id_)
+    if bound is not None and not isinstance(bound, NonSolution):
+        values[sub_query._id_] = NonSolution(bound.value, bound.id_)
 
 
 @dataclass(eq=False)
@@ -1186,6 +1214,9 @@ class DomainMapping(CanBehaveLikeAVariable[T], ABC):
             yield sources
             return
         is_condition = self._is_used_as_condition_
+        # in condition position the values of a sub-query are restricted to its solutions: what the sub-query delivers as
+        # a false row (when false rows are asked for) is false here too, whatever the mapped value is.
+        sub_query = _sub_query_of_(self) if is_condition else None
         child_val = self._child_._evaluate__(sources, yield_when_false=self._yield_when_false_)
         for child_v in child_val:
             for v in self._apply_mapping_(child_v[self._child_._id_]):
@@ -1193,6 +1224,9 @@ class DomainMapping(CanBehaveLikeAVariable[T], ABC):
                 if not is_condition:
                     # A mapped value that is used as a value (operand, selected output, argument) is never filtered.
                     self._is_false_ = False
+                elif _is_not_a_solution_(sub_query, sources):
+                    self._is_false_ = True
+                    _mark_as_non_solution_(sub_query, values)
                 elif (not self._invert_ and v.value) or (self._invert_ and not v.value):
                     self._is_false_ = False
                 else:
@@ -1687,20 +1721,19 @@ class Comparator(BinaryOperator):
             return
 
         first_operand, second_operand = self.get_first_second_operands(sources)
-        first_quantifier = self._quantifier_of_(first_operand, sources)
+        first_sub_query, second_sub_query = _sub_query_of_(first_operand), _sub_query_of_(second_operand)
         first_operand._eval_parent_ = self
         first_values = first_operand._evaluate__(
-            sources, yield_when_false=self._yield_when_false_ and first_quantifier is not None)
+            sources, yield_when_false=self._yield_when_false_ and first_sub_query is not None)
         for first_value in first_values:
             first_value.update(sources)
-            first_is_false = first_quantifier is not None and first_quantifier._is_false_
+            first_is_false = _is_not_a_solution_(first_sub_query, sources)
             operand_value_map = {first_operand._id_: first_value[first_operand._id_]}
             second_operand._eval_parent_ = self
-            second_quantifier = self._quantifier_of_(second_operand, first_value)
             second_values = second_operand._evaluate__(
-                first_value, yield_when_false=self._yield_when_false_ and second_quantifier is not None)
+                first_value, yield_when_false=self._yield_when_false_ and second_sub_query is not None)
             for second_value in second_values:
-                second_is_false = second_quantifier is not None and second_quantifier._is_false_
+                second_is_false = _is_not_a_solution_(second_sub_query, first_value)
                 operand_value_map[second_operand._id_] = second_value[second_operand._id_]
                 # an operand that is a sub-query is restricted to the solutions of the sub-query, when false rows are
                 # asked for, the bindings that are not solutions are delivered as false rows of this comparison.
@@ -1710,22 +1743,14 @@ class Comparator(BinaryOperator):
                     values = copy(first_value)
                     values.update(second_value)
                     values.update(operand_value_map)
+                    if first_is_false:
+                        _mark_as_non_solution_(first_sub_query, values)
+                    if second_is_false:
+                        _mark_as_non_solution_(second_sub_query, values)
                     values[self._id_] = HashedValue(res)
                     self.update_cache(values)
                     yield values
         self.mark_cache_covered(sources)
-
-    @staticmethod
-    def _quantifier_of_(operand: SymbolicExpression, sources: Dict[int, HashedValue]) -> Optional[An]:
-        """
-        The sub-query that an operand takes its values from (directly or through attribute, index or call mappings)
-        when it is this comparison that evaluates it, that is when it is not bound already.
-        """
-        while isinstance(operand, DomainMapping) and not isinstance(operand, Flatten):
-            if operand._id_ in sources:
-                return None
-            operand = operand._child_
-        return operand if isinstance(operand, An) and operand._id_ not in sources else None
 
     def apply_operation(self, operand_values: Dict[int, HashedValue]):
         return self.operation(operand_values[self.left._id_].value, operand_values[self.right._id_].value)
